@@ -805,7 +805,7 @@ def tr2angvec(T, unit='rad', check=False):
     if not isrot(R, check=check):
         raise ValueError("argument is not SO(3)")
 
-    v = base.vex(trlog(R))
+    v = base.vex(trlog(R, check=False))  # R has passed the test above
 
     if base.iszerovec(v):
         theta = 0
